@@ -6,8 +6,10 @@ package main
 //     model; (*Pipeline).topoSort vs the Lean topoSort on generated call graphs;
 //  2. property monitors on the real FormatSrcBytes: output re-parses, second
 //     format = first, AST unchanged up to call order, no comment lost (and none
-//     duplicated when every comment precedes a node), on the repo's .mro files,
-//     generated programs and parsable mutants;
+//     duplicated or moved when every comment precedes a node), on the repo's .mro
+//     files, generated programs and parsable mutants; generated programs with
+//     comments in every lexical position (c09dangle.go): no comment lost or
+//     written twice, the second output is a fixed point;
 //  3. include graphs (diamond, nested directories): the combined source that
 //     ParseSourceBytes returns compiles alone to an equivalent AST.
 
@@ -288,10 +290,17 @@ func c09Format(src []byte, path string) (out string, err error, panicked string)
 	return
 }
 
+// comment modes of c09CheckFormat
+const (
+	c09Loose    = 0 // repo files, corpus, mutants: comments anywhere; none may be lost, first output is a fixed point
+	c09Strict   = 1 // every comment of the source precedes a node in its scope: none may be duplicated either
+	c09Dangling = 2 // generated comments in every lexical position: none may be lost; the SECOND output is a fixed point
+)
+
 // c09CheckFormat runs the formatter monitors on one source; returns violation keys.
-// strictComments: every comment of the source precedes a node in its scope, so none may be duplicated either.
-func c09CheckFormat(c *Ctx, src []byte, path, origin string, strictComments bool, report bool) []string {
+func c09CheckFormat(c *Ctx, src []byte, path, origin string, mode int, report bool) []string {
 	r := c.Res
+	strictComments := mode == c09Strict
 	var keys []string
 	add := func(key, what string, extra map[string]interface{}) {
 		keys = append(keys, key)
@@ -350,12 +359,38 @@ func c09CheckFormat(c *Ctx, src []byte, path, origin string, strictComments bool
 	out2, err, pan := c09Format([]byte(out1), path)
 	if pan != "" || err != nil {
 		add("C09:second-format-failed", "formatting the formatter's output failed: "+pan+fmt.Sprint(err), map[string]interface{}{"formatted": out1})
+	} else if mode == c09Dangling {
+		// dangling comments may move once (to the next node / the end of the file); after that
+		// the text must be stable
+		if out2 == out1 {
+			r.hist("dangling:first-output-is-a-fixed-point")
+		} else {
+			r.hist("dangling:first-output-is-not-a-fixed-point")
+		}
+		out3, err, pan := c09Format([]byte(out2), path)
+		if pan != "" || err != nil {
+			add("C09:third-format-failed:"+c09Class(ast0), "formatting the second formatter output failed: "+pan+fmt.Sprint(err), map[string]interface{}{"formatted": out1, "formatted_twice": out2})
+		} else if out3 != out2 {
+			cls := c09Class(ast0)
+			key := "C09:not-stable-after-two:" + cls
+			if c09NoBlank(out2) == c09NoBlank(out3) {
+				key = "C09:not-idempotent:blank-lines-only" // F27: the blank lines before a scope comment oscillate
+			} else if thr && c09ThreadsLineRe.ReplaceAllString(out2, "") == c09ThreadsLineRe.ReplaceAllString(out3, "") {
+				key = "C09:not-stable-after-two:threads-rounding"
+			}
+			add(key, "format(format(format(x))) differs from format(format(x))", map[string]interface{}{"formatted": out1, "formatted_twice": out2, "formatted_three_times": out3})
+		}
 	} else if out2 != out1 {
 		cls := c09Class(ast0)
 		if thr && c09ThreadsLineRe.ReplaceAllString(out1, "") == c09ThreadsLineRe.ReplaceAllString(out2, "") {
 			cls = "threads-rounding" // nothing but `threads = ...` lines differ
 		} else if cls == "other" && c09NoBlank(out1) == c09NoBlank(out2) {
 			cls = "blank-lines-only"
+			if strictComments {
+				// inside the property's domain (every comment precedes an element) the blank-line
+				// oscillation F27 is repaired (1938fea): there it is a violation, not the known finding
+				cls = "blank-lines-only:strict-positions"
+			}
 		} else if cls == "other" && c09BindListHasComments(ast0) {
 			cls = "comment-before-open-paren"
 		} else if cls == "other" && !strictComments && len(c09Comments(src)) > 0 {
@@ -451,6 +486,33 @@ func c09CheckFormat(c *Ctx, src []byte, path, origin string, strictComments bool
 		add(key, fmt.Sprintf("comment text lost by the formatter: %q", lost), map[string]interface{}{"formatted": out1})
 	} else if strictComments && len(c1) != len(c0) {
 		add("C09:comment-duplicated", fmt.Sprintf("%d comments in, %d comments out", len(c0), len(c1)), map[string]interface{}{"formatted": out1})
+	} else if len(c1) != len(c0) {
+		// comments in dangling positions are only promised to be kept; but the printer has no reason
+		// to write one twice either (F32 did)
+		add("C09:comment-duplicated:dangling-position", fmt.Sprintf("%d comments in, %d comments out", len(c0), len(c1)), map[string]interface{}{"formatted": out1})
+	} else if strictComments {
+		// every comment stays in front of the thing it was written for (and is not, say, moved to
+		// the end of the file): the token that follows the comment is the same in the output
+		if a0, ok := c09CommentAnchors(src); ok {
+			a1, _ := c09CommentAnchors([]byte(out1))
+			if len(a0) > 0 {
+				r.hist("strict:comment-anchors-compared")
+			}
+			// multiset inclusion a0 ⊆ a1
+			j := 0
+			for _, x := range a0 {
+				for j < len(a1) && a1[j] < x {
+					j++
+				}
+				if j < len(a1) && a1[j] == x {
+					j++
+					continue
+				}
+				was := strings.SplitN(x, "\x00", 2)
+				add("C09:comment-displaced", fmt.Sprintf("the comment %q stood before the token %q; in the output it does not", was[0], was[1]), map[string]interface{}{"formatted": out1})
+				break
+			}
+		}
 	}
 	return keys
 }
@@ -525,28 +587,34 @@ func c09Class(a *syntax.Ast) string {
 // computes ceil(float64(v)*100)/100: when the float32 nearest to k/100 lies above k/100 (0.31f =
 // 0.310000002...), reading the printed value rounds up once more (0.31 -> 0.32).
 
-func c09RoundUpTo(value float32, granularity float64) float32 { // = roundUpTo of parsenum.go
-	// (since the repair of F30: a value that already is, as closely as a float32 can hold it, a
-	// multiple of 1/granularity stays as it is)
-	if value == 0 {
-		return 0
+// c09RealThreads is the canonicaliser `h` of the Lean model (Martian.FormatDeclText.HOK: the text
+// the formatter prints for the value the parser stores for a `threads` literal), obtained from the
+// REAL code: the literal is parsed inside a minimal stage and the stored float32 printed with %g.
+// The harness has no copy of parsenum.go roundUpTo any more (second audit, C09 M2): the properties
+// the theorems assume of h (it yields a NUM_FLOAT token or a canonical integer, and is idempotent)
+// are checked on the real code by the stage-text streams and by the exhaustive hundredths monitor.
+var c09RealThreadsCache = map[string]string{}
+
+func c09RealThreads(raw string) string {
+	if v, ok := c09RealThreadsCache[raw]; ok {
+		return v
 	}
-	if nearest := float32(math.Round(float64(value)*granularity) / granularity); nearest == value {
-		return value
+	out := "?" + raw
+	src := "stage S(\n    src py \"x\",\n) using (\n    threads = " + raw + ",\n)\n"
+	if ast, err, pan := c09Parse([]byte(src), "threads.mro"); pan == "" && err == nil && ast != nil &&
+		len(ast.Stages) == 1 && ast.Stages[0].Resources != nil && ast.Stages[0].Resources.ThreadNode != nil {
+		out = fmt.Sprintf("%g", ast.Stages[0].Resources.Threads)
 	}
-	if value > 0 {
-		return float32(math.Ceil(float64(value)*granularity) / granularity)
-	} else if value < 0 {
-		return float32(math.Floor(float64(value)*granularity) / granularity)
-	}
-	return 0
+	c09RealThreadsCache[raw] = out
+	return out
 }
 
+// a `threads` value which is not a fixed point of print + read (F30, fixed by 9a743c1: kept as a
+// class so that a regression is named)
 func c09ThreadsUnstable(a *syntax.Ast) bool {
 	for _, st := range a.Stages {
 		if r := st.Resources; r != nil && r.ThreadNode != nil {
-			f, err := strconv.ParseFloat(fmt.Sprintf("%g", r.Threads), 32)
-			if err != nil || c09RoundUpTo(float32(f), 100) != r.Threads {
+			if t := fmt.Sprintf("%g", r.Threads); c09RealThreads(t) != t {
 				return true
 			}
 		}
@@ -658,6 +726,8 @@ type c09Gen struct {
 	c    *Ctx
 	sb   strings.Builder
 	feat map[string]bool // features of the program being generated (printed with r.hist)
+	// dangling mode (c09dangle.go): values of every shape the comment positions need
+	dangling bool
 }
 
 func (g *c09Gen) f(format string, a ...interface{}) {
@@ -670,8 +740,19 @@ func (g *c09Gen) f(format string, a ...interface{}) {
 func (g *c09Gen) pick(xs []string) string { return xs[g.c.Rng.Intn(len(xs))] }
 
 func (g *c09Gen) comment(indent string) {
+	n := 0
 	for g.c.Rng.Intn(4) == 0 {
 		fmt.Fprintf(&g.sb, "%s# c%d %s\n", indent, g.c.Rng.Intn(1000), g.pick([]string{"note", "é", "\"quoted\"", "# double", "trailing  ", ""}))
+		n++
+	}
+	// a DETACHED block: a blank line between the comment and the element it precedes (the
+	// formatter keeps such a block as a 'scope comment' with its blank line: F27 was about these)
+	if n > 0 && g.c.Rng.Intn(4) == 0 {
+		g.sb.WriteString("\n")
+		g.f("comments:detached-block")
+		if indent == "" {
+			g.f("comments:detached-block:top-level")
+		}
 	}
 }
 
@@ -710,6 +791,9 @@ func (g *c09Gen) help() string {
 }
 
 func (g *c09Gen) val(depth int) string {
+	if g.dangling && g.c.Rng.Intn(2) == 0 {
+		return g.dval(depth)
+	}
 	switch k := g.c.Rng.Intn(10); {
 	case k < 3:
 		return g.pick(c09NumVals)
@@ -842,6 +926,9 @@ func (g *c09Gen) resources() {
 		entries = append(entries[:pos], append([]string{k}, entries[pos:]...)...)
 		g.f("using:repeated-key")
 	}
+	if g.dangling && rng.Intn(4) == 0 {
+		entries = nil // `using ()`
+	}
 	g.f("using:entries:%d", len(entries))
 	if len(entries) > 0 {
 		g.f("using:first:%s", entries[0])
@@ -894,6 +981,9 @@ func (g *c09Gen) stage(name string) {
 	if rng.Intn(4) == 0 {
 		g.sb.WriteString(") retain (\n")
 		n := rng.Intn(4)
+		if g.dangling && rng.Intn(3) == 0 {
+			n = 0 // `retain ()`
+		}
 		g.f("stage:retain:%d", n)
 		for i := 0; i < n; i++ {
 			g.comment("    ")
@@ -1053,7 +1143,7 @@ func (g *c09Gen) program() string {
 	g.feat = map[string]bool{}
 	rng := g.c.Rng
 	g.comment("")
-	if rng.Intn(8) == 0 {
+	if rng.Intn(8) == 0 || g.dangling && rng.Intn(3) == 0 {
 		n := 1 + rng.Intn(2)
 		g.f("includes:%d", n)
 		for i := 0; i < n; i++ {
@@ -1129,13 +1219,14 @@ func (g *c09Gen) program() string {
 
 func runC09(c *Ctx) {
 	r := c.Res
-	r.Rule = "(1) strings: corpus + every single byte + PRNG mixes of escapes-worthy ASCII, control bytes, multi-byte runes (incl. U+2028/9, surrogate-range and >U+10FFFF encodings) and invalid bytes: Go quoteString vs Lean quoteString (bytes), and unquoteBytes(quoteString s) = s on the real code for valid UTF-8 (non-trivial = has a byte that is escaped or non-ASCII). (2) topoSort: pipelines of 1..9 calls over random dependency graphs (DAGs, forward/backward references, occasional cycles): real (*Pipeline).topoSort order vs Lean topoSort, plus permutation / dependency order / second-run-is-identity monitors (non-trivial = at least one call must move). (3) FormatSrcBytes on the repo's .mro files, generated programs (includes, dotted filetypes, structs with help/outname, stages and pipelines interleaved; comments before declarations/params/bindings/calls/resource keys/retain entries; every literal form; stage parameters with help/outname, typed maps and arrays, default outputs, ids of 29..36 bytes and help strings of 19..26 bytes around the formatter's column thresholds, keyword-like identifiers; every src language with arguments and escapes; split / split using chunk parameters; using blocks with any subset and order of mem_gb|memgb, vmem_gb|vmemgb, threads, special, volatile = strict|false, repeated keys, resource values with sign, zero spellings incl. -0, fractions below and above 1 incl. k/1024 and values between, integers, large values, exponent spellings, leading zeros, rarely > 1e12; stage and pipeline retains; calls with keyword and bound modifiers in any order, disabled, wildcard bindings, map calls, aliased or not, forward references; returns with 0..3 bindings) and parsable C08-style mutants: re-parse, fixed point, AST dump equal up to call order, comment multiset (non-trivial = formatter changed the text); the AST dump is audited on every run (c09audit.go): reflect walks every struct type reachable from syntax.Ast, every exported field must be classified as dumped or excluded with a reason, every dumped field is altered in a parsed fixed program and the dump must change. (4) include graphs: diamond + nested directories, combined source compiles alone to an equivalent AST. (5) value expressions: generated expression ASTs (depth <= 4, about 80% well-formed, the rest with NaN/Inf/-0, invalid UTF-8, reserved or non-identifier keys and references, nil arrays; prefix \"\", four spaces or blanks+tab): syntax.FormatExp vs the Lean printer for all of them, Parser.ParseValExp on the printed text vs the Lean reader for all of them, and for those the model calls well-formed the real text re-parses to the normalised AST (nil array -> null, integral float -> int) and prints to the same text again (non-trivial = the text has a line break, an escape or a reference); then near-miss texts (printed texts and hand-written seeds mutated by 1-3 byte/line/comma/comment edits, among them bytes >= 0x80 outside string literals: Unicode white space and its neighbours, U+FFFD and invalid or truncated UTF-8 between tokens, inside identifiers and numbers, inside comments, comments at the end of the input): ParseValExp vs the Lean reader (both reject or same AST), the parser never panics, every accepted well-formed value survives print + read; on every one of those texts and on every printed text the token stream of the real scanner (mmLexInfo.Lex until the end of the input or an INVALID token) vs the model's lexAll, token by token."
+	r.Rule = "(1) strings: corpus + every single byte + PRNG mixes of escapes-worthy ASCII, control bytes, multi-byte runes (incl. U+2028/9, surrogate-range and >U+10FFFF encodings) and invalid bytes: Go quoteString vs Lean quoteString (bytes), and unquoteBytes(quoteString s) = s on the real code for valid UTF-8 (non-trivial = has a byte that is escaped or non-ASCII). (2) topoSort: pipelines of 1..9 calls over random dependency graphs (DAGs, forward/backward references, occasional cycles): real (*Pipeline).topoSort order vs Lean topoSort, plus permutation / dependency order / second-run-is-identity monitors (non-trivial = at least one call must move). (3) FormatSrcBytes on the repo's .mro files, generated programs (includes, dotted filetypes, structs with help/outname, stages and pipelines interleaved; comments before declarations/params/bindings/calls/resource keys/retain entries; every literal form; stage parameters with help/outname, typed maps and arrays, default outputs, ids of 29..36 bytes and help strings of 19..26 bytes around the formatter's column thresholds, keyword-like identifiers; every src language with arguments and escapes; split / split using chunk parameters; using blocks with any subset and order of mem_gb|memgb, vmem_gb|vmemgb, threads, special, volatile = strict|false, repeated keys, resource values with sign, zero spellings incl. -0, fractions below and above 1 incl. k/1024 and values between, integers, large values, exponent spellings, leading zeros, rarely > 1e12; stage and pipeline retains; calls with keyword and bound modifiers in any order, disabled, wildcard bindings, map calls, aliased or not, forward references; returns with 0..3 bindings; two comment modes: strict (2/3 of the programs: comments only before declarations, parameters, bindings, calls, return, resource keys, retain entries; monitors: re-parse, first output is a fixed point, AST dump equal up to call order, comment multiset equal, and every comment is followed by the same token as in the source, i.e. it is not moved to another node or to the end of the file) and dangling (1/3: the program gets values with empty / one-element / nested collections, duplicated and multi-line keys, is cut into tokens by the real tokenizer and 1..3-line comment blocks - own line or on the line of the previous token, with and without blank lines between and after them, trailing blanks / tabs / CR / non-ASCII text / `#` only, at the end of the file without a newline - are written into gaps between ANY two tokens: sparse, dense, or every gap of one position class; classes in the histogram gen:comments:dangling:*: before each closing bracket, inside empty brackets, between keyword and bracket, after a comma, between key / colon / value, before duplicated and multi-line keys, in one-element arrays, after the last declaration, around @include, inside filetype, parameter, src and map<> token runs; monitors: re-parse, AST dump equal, no comment lost or written twice, format(format x) is a fixed point of format); hand-written programs for each position family in corpus/C09/dangling.txt) and parsable C08-style mutants: re-parse, fixed point, AST dump equal up to call order, comment multiset (non-trivial = formatter changed the text); the AST dump is audited on every run (c09audit.go): reflect walks every struct type reachable from syntax.Ast, every exported field must be classified as dumped or excluded with a reason, every dumped field is altered in a parsed fixed program and the dump must change. (4) include graphs: diamond + nested directories, combined source compiles alone to an equivalent AST. (5) value expressions: generated expression ASTs (depth <= 4, about 80% well-formed, the rest with NaN/Inf/-0, invalid UTF-8, reserved or non-identifier keys and references, nil arrays; prefix \"\", four spaces or blanks+tab): syntax.FormatExp vs the Lean printer for all of them, Parser.ParseValExp on the printed text vs the Lean reader for all of them, and for those the model calls well-formed the real text re-parses to the normalised AST (nil array -> null, integral float -> int) and prints to the same text again (non-trivial = the text has a line break, an escape or a reference); then near-miss texts (printed texts and hand-written seeds mutated by 1-3 byte/line/comma/comment edits, among them bytes >= 0x80 outside string literals: Unicode white space and its neighbours, U+FFFD and invalid or truncated UTF-8 between tokens, inside identifiers and numbers, inside comments, comments at the end of the input): ParseValExp vs the Lean reader (both reject or same AST), the parser never panics, every accepted well-formed value survives print + read; on every one of those texts and on every printed text the token stream of the real scanner (mmLexInfo.Lex until the end of the input or an INVALID token) vs the model's lexAll, token by token."
 	if c.Drv == nil {
 		fatal("C09 needs the Lean driver")
 	}
 	reported := map[string]bool{}
-	check := func(src []byte, path, origin string, strict bool) {
-		keys := c09CheckFormat(c, src, path, origin, strict, false)
+	check := func(src []byte, path, origin string, mode int) {
+		strict := mode
+		keys := c09CheckFormat(c, src, path, origin, mode, false)
 		for _, k := range keys {
 			if reported[k] {
 				continue
@@ -1153,7 +1244,28 @@ func runC09(c *Ctx) {
 		}
 		r.hist("corpus")
 		r.count("corpus:"+s, true)
-		check([]byte(s), filepath.Join(c.Scratch, "corpus.mro"), "corpus", false)
+		if strings.HasPrefix(s, "dangling:") {
+			// comments in dangling positions (corpus/C09/dangling.txt)
+			r.hist("corpus:dangling")
+			prog := []byte(strings.TrimPrefix(s, "dangling:"))
+			if a, err, pan := c09Parse(prog, "corpus.mro"); pan != "" || err != nil || a == nil {
+				r.violate(Violation{Kind: "correspondence", Key: "C09:corpus-program-rejected", What: "a program of corpus/C09/dangling.txt is rejected by the parser (corpus defect): " + fmt.Sprint(err, pan),
+					Input: string(prog)})
+			} else if out, _, _ := c09Format(prog, "corpus.mro"); true {
+				r.sample(map[string]string{"dangling_corpus_program": string(prog), "formatted": out})
+			}
+			check([]byte(strings.TrimPrefix(s, "dangling:")), filepath.Join(c.Scratch, "corpus.mro"), "corpus (dangling comments)", c09Dangling)
+			continue
+		}
+		check([]byte(s), filepath.Join(c.Scratch, "corpus.mro"), "corpus", c09Loose)
+	}
+
+	// development aid: VERIF_C09_ONLY=format runs the formatter monitors of part 3 only
+	onlyFormat := os.Getenv("VERIF_C09_ONLY") == "format"
+	c09Timed := func(c *Ctx, name string, f func(*Ctx)) {
+		if !onlyFormat {
+			c09Timed(c, name, f)
+		}
 	}
 
 	// ---- 1. quoteString ----
@@ -1177,15 +1289,24 @@ func runC09(c *Ctx) {
 		r.hist("seed")
 		out, _, _ := c09Format(s.src, s.path)
 		r.count("seed:"+s.name, out != string(s.src))
-		check(s.src, s.path, "seed:"+s.name, false)
+		check(s.src, s.path, "seed:"+s.name, c09Loose)
 	}
 	g := &c09Gen{c: c}
 	n := 1500
 	if c.Thorough {
 		n = 60000
 	}
+	tGen := time.Now()
 	for i := 0; i < n; i++ {
-		src := g.program()
+		// a third of the programs: comments in every lexical position (c09dangle.go)
+		mode, origin := c09Strict, "generated"
+		var src string
+		if c.Rng.Intn(3) == 0 {
+			mode, origin = c09Dangling, "generated (dangling comments)"
+			src = g.programDangling()
+		} else {
+			src = g.program()
+		}
 		out, _, _ := c09Format([]byte(src), "gen.mro")
 		r.count("gen:"+src, out != src)
 		r.hist("generated-program")
@@ -1199,8 +1320,36 @@ func runC09(c *Ctx) {
 		if i%401 == 0 {
 			r.sample(map[string]string{"generated_program": src})
 		}
-		check([]byte(src), filepath.Join(c.Scratch, "gen.mro"), "generated", true)
+		check([]byte(src), filepath.Join(c.Scratch, "gen.mro"), origin, mode)
 	}
+	r.note("part generated programs: %.1f s", time.Since(tGen).Seconds())
+	// the repo's own .mro files with comments written into their gaps (dangling mode)
+	nd := 250
+	if c.Thorough {
+		nd = 10000
+	}
+	for i := 0; i < nd; i++ {
+		seed := progSeeds[c.Rng.Intn(len(progSeeds))]
+		if a, err, pan := c09Parse(seed.src, seed.path); pan != "" || err != nil || a == nil {
+			continue
+		}
+		g.feat = map[string]bool{}
+		src := g.dangle(string(seed.src))
+		r.count("dangled-seed:"+src, true)
+		r.hist("dangled-seed")
+		for f := range g.feat {
+			r.hist("seed:" + f)
+		}
+		if a, err, pan := c09Parse([]byte(src), seed.path); pan != "" || err != nil || a == nil {
+			r.hist("dangled-seed:rejected-by-the-parser")
+			r.violate(Violation{Kind: "correspondence", Key: "C09:dangled-seed-rejected", What: "a parsable file is rejected after comments were written between its tokens (harness defect): " + fmt.Sprint(err, pan),
+				Input: map[string]string{"seed": seed.name, "source": src}})
+			continue
+		}
+		check([]byte(src), seed.path, "seed with dangling comments:"+seed.name, c09Dangling)
+	}
+	r.note("part generated programs + dangled seeds: %.1f s", time.Since(tGen).Seconds())
+	tMut := time.Now()
 	m := 3000
 	if c.Thorough {
 		m = 100000
@@ -1215,9 +1364,9 @@ func runC09(c *Ctx) {
 		parsable++
 		r.count("mut:"+string(mut), true)
 		r.hist("parsable-mutant")
-		check(mut, seed.path, "mutant("+names+"):"+seed.name, false)
+		check(mut, seed.path, "mutant("+names+"):"+seed.name, c09Loose)
 	}
-	r.note("parsable mutants formatted: %d of %d", parsable, m)
+	r.note("parsable mutants formatted: %d of %d in %.1f s", parsable, m, time.Since(tMut).Seconds())
 
 	// ---- 4. include graphs ----
 	c09Timed(c, "c09Includes", c09Includes)
@@ -1233,7 +1382,7 @@ func c09Timed(c *Ctx, name string, f func(*Ctx)) {
 	c.Res.note("part %s: %.1f s", name, time.Since(t).Seconds())
 }
 
-func c09CheckFormatReportOnly(c *Ctx, src []byte, path, origin string, strict bool, key string) {
+func c09CheckFormatReportOnly(c *Ctx, src []byte, path, origin string, strict int, key string) {
 	// run once more with reporting, keeping only the requested key
 	before := len(c.Res.Violations)
 	c09CheckFormat(c, src, path, origin, strict, true)
@@ -1246,7 +1395,7 @@ func c09CheckFormatReportOnly(c *Ctx, src []byte, path, origin string, strict bo
 	c.Res.Violations = kept
 }
 
-func c09Shrink(c *Ctx, src []byte, path string, strict bool, key string) []byte {
+func c09Shrink(c *Ctx, src []byte, path string, strict int, key string) []byte {
 	tries := 0
 	has := func(b []byte) bool {
 		tries++
@@ -1665,7 +1814,7 @@ func c09Includes(c *Ctx) {
 				}
 			}
 			// and it is a fixed point of the formatter
-			if k := c09CheckFormat(c, []byte(combined), alone, "combined:"+g.name, false, true); len(k) > 0 {
+			if k := c09CheckFormat(c, []byte(combined), alone, "combined:"+g.name, c09Loose, true); len(k) > 0 {
 				r.hist("include-combined-format-issue")
 			}
 		}()
